@@ -16,10 +16,14 @@ OneTwo  == {1, 2}
 Three   == {3}
 Both    == {TRUE, FALSE}
 OnlyOn  == {TRUE}
-AllPcs  == {"loop", "next", "cmp", "arm", "sleep", "decide", "shooting", "done"}
+AllPcs  == {"idle", "loop", "next", "cmp", "arm", "sleep", "decide", "shooting", "done"}
 AtCmp   == {"cmp"}
 L036    == {0, 3, 6}
+S0      == {0}
+S0730   == {0, 7, 30}
+S030    == {0, 30}
+S0412   == {0, 4, 12}
 
 \* script export: at the end of a walk print the whole decision history (one line per walk)
-Export == AllDone => PrintT(<<"VERIF", ToJson([disc |-> disc, ninst |-> ninst, fin |-> now, hist |-> hist])>>)
+Export == AllDone => PrintT(<<"VERIF", ToJson([disc |-> disc, ninst |-> ninst, fin |-> now, hist |-> hist, startAt |-> startAt])>>)
 =============================================================================
